@@ -176,12 +176,12 @@ def judge(lines, trace, on_stop, origin, fresh, kinds, x=0):
                       f"uod.command_instances = {at_c['instances']} at tick {c} when {kind} completed"))
     extra = [x for x in at_c["registry"] if x != kind]
     # same root cause for an internal command: requested in the cancelling tick before the Stop/Restart, started after it
-    late_started = [x for x in extra if x in by_n[s - 1]["registry"] and (pre is None or x not in pre["registry"])]
-    for x in late_started:
-        probs.append((f"C10:internal-command-started-in-cancelling-tick-survives:{x}:{tag}",
-                      f"{x} was started in tick {s - 1}, the tick in which {kind} cancelled the running commands, was not cancelled and is "
+    late_started = [ic for ic in extra if ic in by_n[s - 1]["registry"] and (pre is None or ic not in pre["registry"])]
+    for ic in late_started:
+        probs.append((f"C10:internal-command-started-in-cancelling-tick-survives:{ic}:{tag}",
+                      f"{ic} was started in tick {s - 1}, the tick in which {kind} cancelled the running commands, was not cancelled and is "
                       f"still registered at tick {c} when {kind} completed (System State at {s - 1}: {by_n[s - 1]['state']})"))
-    extra = [x for x in extra if x not in late_started]
+    extra = [ic for ic in extra if ic not in late_started]
     if extra:
         probs.append((f"C10:internal-command-left:{','.join(extra)}:{tag}",
                       f"internal command(s) {extra} still registered at tick {c} when {kind} completed"))
@@ -364,7 +364,7 @@ def well_formed(forest) -> bool:
 
 
 X_TICKS = (0, 3, 4, 5, 6)      # In1 becomes 2.0 before this tick: shifts Watch bodies against the main flow tick by tick
-KINDS_M = ["L", "A", "M", "W1", "WaI", "St", "Rs"]     # method-issued Stop/Restart racing a Watch body / the main flow
+KINDS_M = ["L", "A", "P", "M", "W1", "WaI", "St", "Rs"]     # method-issued Stop/Restart racing a Watch body / the main flow
 
 
 def corpus(ctx):
